@@ -16,6 +16,8 @@ def run(rep):
     f2(rep, w)
     f3(rep, w)
     f4(rep, w)
+    import c06
+    c06.s5(rep, w)   # a yield / switch must not close the suspended fiber's upvalues (its slots stay live)
 
 
 def value_key(paths):
